@@ -140,6 +140,20 @@ class PolarsCoerceFailureCases(Contract):
                 except Exception as e:  # noqa: BLE001
                     bad = True
                     obs[f"validate(lazy={lazy})"] = f"leaked {type(e).__name__}: {e}"[:160]
+            # the row mask itself (-> SchemaError.check_output, AND-folded by drop_invalid_rows): True / False on every row, never null
+            mask, fc = PE.polars_coerce_failure_cases(PolarsData(pl.LazyFrame({"a": ["1", None, "x"]}), "a"), pl.Int64)
+            got = mask[mask.columns[0]].to_list()
+            if got != [True, True, False]:
+                bad = True
+                obs["row mask of ['1', None, 'x'] -> Int64"] = f"{got}, expected [True, True, False]"
+            try:
+                out = pp.DataFrameSchema({"a": pp.Column(int, nullable=True, coerce=True)}, drop_invalid_rows=True).validate(pl.DataFrame({"a": ["1", None, "x"]}), lazy=True)
+                rows = out["a"].to_list()
+            except Exception as e:  # noqa: BLE001
+                rows = f"raised {type(e).__name__}"
+            if rows != [1, None]:
+                bad = True
+                obs["drop_invalid_rows, nullable int column coerced from ['1', None, 'x']"] = f"{rows}, expected [1, None]"
             return bad, obs
 
         return thunk
